@@ -181,6 +181,7 @@ def run(ctx):
         tag = B.peel(r.a[1][1]) if r.op == "call" else None
         ok = ok and tag is not None and tag.op == "assoc" and tag.a[0] == "BlsElGamal::ENC_DST"
         ctx.ob("E5.generator", mg.key, ok, "H = PublicKeyHasher::hash_to_point(to_bytes(G), ENC_DST): %s" % show(r, 4), where=where(mg))
+    F.check_combiner_lengths(ctx, "E4.len-range", P)
     # "the fixed message generator": the label it is hashed under is the pinned one, per implementation
     from .common import spec as _spec, collect_constants as _cc
 
